@@ -37,6 +37,7 @@
 #include "galois/runtime/ThreadTimer.h"
 #include "galois/runtime/UserContextAccess.h"
 #include "galois/substrate/Termination.h"
+#include "galois/substrate/Verif.h"
 #include "galois/substrate/ThreadPool.h"
 #include "galois/Threads.h"
 #include "galois/Timer.h"
@@ -208,8 +209,10 @@ protected:
       auto n   = pb.size();
       if (n) {
         tld.inc_pushes(n);
+        GALOIS_VERIF_POINT(FE_COMMIT_BEFORE_PUSH);
         wl.push(pb.begin(), pb.end());
         pb.clear();
+        GALOIS_VERIF_POINT(FE_COMMIT_AFTER_PUSH);
       }
     }
     if (needsPia)
@@ -225,6 +228,7 @@ protected:
     assert(needsAborts);
     tld.ctx.cancelIteration();
     tld.inc_conflicts();
+    GALOIS_VERIF_POINT(FE_ABORT_BEFORE_PUSH);
     aborted.push(item);
     // clear push buffer
     if (needsPush)
@@ -338,10 +342,12 @@ protected:
         }
 
         // Update node color and prop token
+        GALOIS_VERIF_POINT(FE_BEFORE_LOCALTERM);
         term.localTermination(didWork);
         substrate::asmPause(); // Let token propagate
       } while (!term.globalTermination() && (!needsBreak || !broke));
 
+      GALOIS_VERIF_POINT(FE_BEFORE_CHECKEMPTY);
       if (checkEmpty(wl, tld, 0)) {
         execTime.stop();
         break;
